@@ -221,3 +221,63 @@ Qed.
 Theorem plist_get_first : forall k v rest, plist_get (Cons k (Cons v rest)) k =
   match eq_model k k with Some true => Ok v | Some false => plist_get rest k | None => Err ENotImpl end.
 Proof. intros. simpl. destruct (eq_model k k) as [[|]|]; reflexivity. Qed.
+
+(* alist-get, as the built-in computes it (no test function): the value of the   *)
+(* first pair whose key is equal to the key, also when that value is nil; the   *)
+(* default only when there is no such pair                                      *)
+Definition alist_get_spec (F : fops) (key : sx) (es : list sx) (dflt : sx) : sx :=
+  match List.find (is_pair_with (fun k => equal F k key)) es with
+  | Some (Cons _ v) => v
+  | _ => dflt
+  end.
+
+Theorem alist_get_first_match F rec key es dflt s :
+  bind (assoc F rec key (of_list es Nil) None)
+       (fun x => if truthy x then lift (cdr_of x) else ret dflt) s
+  = (Ok (alist_get_spec F key es dflt), s).
+Proof.
+  unfold assoc, bind. assert (Hl : listp (of_list es Nil) = true) by (destruct es; reflexivity).
+  rewrite Hl. cbn [negb].
+  rewrite (assoc_first_match (fun k => equal F k key) es s). unfold alist_get_spec.
+  destruct (List.find (is_pair_with (fun k => equal F k key)) es) as [e|] eqn:Ef; [|reflexivity].
+  apply find_some in Ef as [_ Hp]. destruct e; try discriminate Hp. reflexivity.
+Qed.
+
+(* plist-get: the value after the first key at an even position that is eq to *)
+(* the property; nil when there is none or when the list ends after that key   *)
+Definition keq (prop k : sx) : bool := match eq_model k prop with Some b => b | None => false end.
+
+Fixpoint plist_spec (prop : sx) (fuel : nat) (l : list sx) : sx :=
+  match fuel with
+  | O => Nil
+  | S f => match l with
+           | k :: v :: r => if keq prop k then v else plist_spec prop f r
+           | _ => Nil
+           end
+  end.
+
+Fixpoint even_keys (P : sx -> Prop) (fuel : nat) (l : list sx) : Prop :=
+  match fuel with
+  | O => True
+  | S f => match l with
+           | k :: r => P k /\ match r with _ :: r' => even_keys P f r' | [] => True end
+           | [] => True
+           end
+  end.
+
+Theorem plist_get_spec prop : forall fuel l, (List.length l <= fuel)%nat ->
+  even_keys (fun k => eq_model k prop <> None) fuel l ->
+  plist_get (of_list l Nil) prop = Ok (plist_spec prop fuel l).
+Proof.
+  induction fuel as [|fuel IH]; intros l Hl Hk.
+  - destruct l; [reflexivity|simpl in Hl; lia].
+  - destruct l as [|k [|v r]]; [reflexivity| |].
+    + simpl in Hk. destruct Hk as [Hk _]. simpl. destruct (eq_model k prop) as [[|]|]; try reflexivity; congruence.
+    + simpl in Hk. destruct Hk as [Hk Hr]. cbn [of_list plist_get plist_spec]. unfold keq.
+      destruct (eq_model k prop) as [[|]|]; [reflexivity| |congruence].
+      destruct r as [|k2 r2].
+      * destruct fuel; reflexivity.
+      * change (of_list (k2 :: r2) Nil) with (Cons k2 (of_list r2 Nil)).
+        cbn iota. rewrite <- (IH (k2 :: r2)); [reflexivity|simpl in *; lia|].
+        destruct fuel; [simpl in Hl; lia|exact Hr].
+Qed.
